@@ -35,7 +35,8 @@ import c12_gen as G      # noqa: E402
 
 PROP = 'C12'
 THEOREMS = [
-    'C12_sound', 'C12_subsumption', 'C12_union_type_sound', 'C12_std_sig_wf',
+    'C12_sound', 'C12_type_independent_of_values', 'C12_stmt_type_sound', 'C12_resolve_order_independent',
+    'C12_subsumption', 'C12_union_type_sound', 'C12_std_sig_wf',
     'C12_std_common_upper_bound', 'C12_std_common_symmetric', 'C12_std_common_order_independent',
 ]
 REFUTED = ['C12_sound_without_clean_refuted', 'C12_common_type_symmetry_refuted']
